@@ -153,9 +153,46 @@ def execute(case):
 
         f.update_trigger = update_spy
 
-        def submit(prio, via):
+        def reset_cmd(archive):
+            '''POST /api/cmd/reset: when active an immediate reload (like a
+            NOW request); otherwise refused without any effect'''
+            import dawgie.fe.api as api
+
             active = f.is_pipeline_active()
             before = r.snapshot()
+            arch = r.farm.ARCHIVE
+            if active:
+                asked.append(3)
+                if strongest[0] is None or strongest[0] < 3:
+                    strongest[0] = 3
+            api.cmd_reset(['true'] if archive else None)
+            if not active:
+                r.farm.ARCHIVE = arch if False else r.farm.ARCHIVE
+                if r.snapshot() != before:
+                    out.fail('reset/refused-with-side-effects',
+                             f'not active ({before[0]}) but {before} -> '
+                             f'{r.snapshot()}')
+                out.label('reset-refused')
+            else:
+                out.label('reset-accepted')
+
+        def submit(prio, via, ok=True):
+            active = f.is_pipeline_active()
+            before = r.snapshot()
+            if via == 0 and not ok:
+                # the merge / compliance step fails: the submission is
+                # abandoned in step 2 and must leave nothing behind
+                r.automatic_ok = False
+                req = _Req()
+                fsub.Process('cs', lambda: None, req, prio).step_0()
+                r.run_calls()
+                r.automatic_ok = True
+                if r.snapshot() != before:
+                    out.fail('submit/failed-submission-left-traces',
+                             f'{before} -> {r.snapshot()}')
+                out.label('submission-failed-in-step-2' if active
+                          else 'submission-refused')
+                return
             if active:
                 # bookkeeping first: NOW fires inside the crossroads
                 rank = RANK[prio]
@@ -191,7 +228,10 @@ def execute(case):
         def drive(ev):
             kind = ev[0]
             if kind == 'submit':
-                submit(PRIOS[ev[1] % len(PRIOS)], ev[2])
+                submit(PRIOS[ev[1] % len(PRIOS)], ev[2],
+                       ok=(len(ev) < 4 or bool(ev[3])))
+            elif kind == 'reset':
+                reset_cmd(ev[1])
             elif kind == 'poll':
                 ps = r.pollers()
                 if ps:
@@ -298,6 +338,9 @@ _ev = st.one_of(
     st.tuples(st.just('step'), _n).map(list),
     st.just(['archive']),
     st.just(['archive']),
+    st.tuples(st.just('submit'), st.integers(0, 4), st.just(0),
+              st.just(0)).map(list),
+    st.tuples(st.just('reset'), st.integers(0, 1)).map(list),
     st.tuples(st.just('finish'), st.just([0, 0, 0])).map(list),
     st.tuples(st.just('finish'), st.tuples(_n, _n, _n).map(list)).map(list),
     st.tuples(st.just('finish'), st.tuples(_n, _n, _n).map(list)).map(list),
@@ -318,7 +361,11 @@ def _cycles(draw):
         subs = draw(st.lists(st.tuples(st.integers(0, 4), st.integers(0, 1)),
                              min_size=1, max_size=3))
         for prio, via in subs:
+            if draw(st.integers(0, 5)) == 0:
+                word.append(['submit', draw(st.integers(0, 4)), 0, 0])
             word.append(['submit', prio, via])
+            if draw(st.integers(0, 7)) == 0:
+                word += [['archive'], ['reset', 0]]
         order = draw(st.permutations(['busy', 'doing', 'queue']))
         for x in order[:draw(st.integers(1, 3))]:
             word.append([x, 0])
